@@ -13,7 +13,8 @@ Main theorem `text_roundtrip`: for every list of modules satisfying the explicit
 `WF`, scanning the written text succeeds, yields the normal form `normText ms`, and that normal form
 is written as the very same text.  Every conjunct of `WF` that the proof needed is probed on the real
 code at the excluded point by the check (see `wfReport`); those where the real code really fails
-are the findings #3/#4/#5/#32/#34 and four new ones.
+are the findings #4, #5, ref-shadowed-by-reg and bss-ge-2^63 (#3, #32, #34, label-before-endfunc and
+stale-insn-code were fixed in /repo and the model follows the fixed code).
 
 What is *not* proved: nothing about the C library's `printf`/`strtod` beyond the per-literal
 condition `floatRT` inside `WF`; API-level validation (operand modes etc.) is outside the model.
@@ -116,9 +117,11 @@ theorem insn_roundtrip (c : Nat) (ops : List Op) (hc : codeOK c = true) (hops : 
   · apply lexAll_flatten
     · exact allValid_ltFItem (by simp [lexFItem, hcc.1.1.1.1.1, hcc.2, hops])
     · exact (okC_ltFItem _).okLT
-  · have := body_lines [.insn c ops] [] (by simp [pFItem, hc]) (by simp [okTail])
+  · have hall : All2 (ParsesTo (.insn c)) (ops.map fun o => toks (ltOp o)) (ops.map ropOfOp) :=
+      All2.map _ _ ops (fun o _ t rest ht => parseOperand_op (plain_heads.2.2.2.2.2.2.2.2 c) o ht rest)
+    have := line_of (labels := []) true (classify_insn hc 0) hall (Or.inl rfl)
     have h2 := this []
-    simpa [stmtsOfBody, bodyLabelToks, parseStmts_nil, Except.map] using h2
+    simpa [bodyLabelToks, ltFItem, ltName, tTab, tNl, LT.toks, toks_ltOps, parseStmts_nil, Except.map] using h2
 
 /-! ## whole texts -/
 
@@ -138,7 +141,7 @@ theorem text_roundtrip_fixpoint (ms : List Module) (h : WF ms = true) :
     ∃ ms', scanText (printText ms) = .ok ms' ∧ printText ms' = printText ms :=
   ⟨normText ms, (text_roundtrip ms h).1, (text_roundtrip ms h).2⟩
 
-/-- the writer model is defined on every item kind, `expr` included (the C writer is not: finding #3) -/
+/-- the writer model is defined on every item kind, `expr` included (the C writer is too since fix ed61a8c4) -/
 theorem writer_total_expr (name : Option Str) (fn : Str) :
     printItem (.expr name fn) = flatten (ltNameColon name) ++ '\t' :: kwExpr ++ '\t' :: fn ++ ['\n'] := by
   simp [printItem, ltItem, flatten, LT.chars, ltName, tTab, tNl]
@@ -160,11 +163,26 @@ def exFunc : Func :=
              .insn 0 [.reg ['x'], .str ['h', 'i', Char.ofNat 0]],
              .insn 171 [.reg ['x']]] }
 
+/-- ends in a label and has a block parameter of 2^40 bytes: both were unreadable before the fixes -/
+def exFunc2 : Func :=
+  { name := ['g'], res := [], args := [⟨.blk0, ['b'], 2 ^ 40⟩], vararg := false, locals := [], globals := [],
+    body := [.label 3, .insn 118 [.label 3], .insn 171 [], .label 4] }
+
+/-- ends in `jmp` (no `ret`): a `ref`/`expr` line after it used to be misread (stale `insn_code`) -/
+def exFunc4 : Func :=
+  { name := ['k'], res := [], args := [], vararg := false, locals := [], globals := [],
+    body := [.label 5, .insn 118 [.label 5]] }
+
+def exFunc3 : Func :=
+  { name := ['h'], res := [.i64], args := [], vararg := false, locals := [], globals := [],
+    body := [.insn 171 [.int 5]] }
+
 def exMod : Module :=
   { name := ['m'],
     items := [.import ['p', 'r'], .bss (some ['d', '1']) 16, .data none .u8 [104, 0], .data (some ['e']) .d [0x3FF8000000000000],
+      .data (some ['q']) .p [0x1234, 0],
       .proto ['p'] [.i64] [⟨.p, ['q'], 0⟩] true, .func exFunc, .export ['f'], .ref (some ['r']) ['d', '1'] 8,
-      .lref none 1 (some 2) 4] }
+      .lref none 1 (some 2) 4, .func exFunc2, .func exFunc3, .func exFunc4, .ref none ['d', '1'] 0, .expr none ['h']] }
 
 set_option maxRecDepth 100000 in
 example : WF [exMod] = true := by decide +kernel
@@ -175,9 +193,7 @@ example : ∃ ms', scanText (printText [exMod]) = .ok ms' ∧ printText ms' = pr
 
 /-- the excluded points are really excluded: e.g. a `uint` ≥ 2^63 (finding #4) fails `WF` -/
 example : opOK [['x']] [] 0 1 (.uint (BitVec.ofNat 64 (2 ^ 63))) = false := by decide
-/-- … and so does a function whose body ends in a label (new finding) -/
-example : noTrailingLabel [.insn 171 [], .label 1] = false := by decide
-/-- … and a `ref` line right after a function ending in `jmp` (stale `insn_code`, new finding) -/
-example : notStaleLabel opJMP = false := by decide
+/-- … and an item reference with the name of a register of the function (finding ref-shadowed-by-reg) -/
+example : opOK [['x']] [⟨['x'], .bss, false⟩] 0 1 (.ref ['x']) = false := by decide
 
 end TextIO
